@@ -117,6 +117,21 @@ def history(ctx, lw, rng, kind):
         ps_obj = lw.PostSelection(multi_rules=True) if rng.random() < 0.6 else None
         obj = emu.QuickSampler(c, State(occ), photon_counting=bool(rng.random() < 0.7), post_select=ps_obj)
     n_steps = int(rng.integers(5, 41 if ctx.tier == "thorough" else 21))
+    # a sibling object sharing the same circuit (and source / detector / post-selection objects): whatever is done to the
+    # shared parts through one of them, each must keep answering like a fresh object with the settings it reports
+    sibling = None
+    if rng.random() < 0.35:
+        try:
+            if kind == "Sampler":
+                sibling = emu.Sampler(obj.circuit, obj.input_state, source=obj.source, detector=obj.detector,
+                                      backend=str(rng.choice(["permanent", "slos"])))
+            else:
+                sibling = emu.QuickSampler(obj.circuit, obj.input_state, photon_counting=obj.photon_counting,
+                                           post_select=ps_obj)
+            ctx.bucket("sibling_object_shares_parts")
+            trace.append(["sibling_created"])
+        except Exception as e:  # noqa: BLE001
+            ctx.count("sibling_raised:" + type(e).__name__)
     changed_since_obs = None
     nontrivial = False
     if rng.random() < 0.3:
@@ -293,6 +308,19 @@ def history(ctx, lw, rng, kind):
         except Exception as e:  # noqa: BLE001 - refusals are outcomes; the twin monitor judges them
             trace[-1].append("raised " + type(e).__name__)
             ctx.count("step_raised:" + type(e).__name__)
+        if sibling is not None and rng.random() < 0.3:
+            try:
+                trace.append(["sibling_" + str(rng.choice(["read", "read", "n_outputs"]))])
+                if trace[-1][0] == "sibling_read":
+                    _ = sibling.probability_distribution
+                elif kind == "Sampler":
+                    sibling.sample_N_outputs(50, seed=pick_seed(rng))
+                else:
+                    sibling.sample_N_outputs(50, pick_seed(rng))
+                ctx.bucket("sibling_observed")
+            except Exception as e:  # noqa: BLE001
+                trace[-1].append("raised " + type(e).__name__)
+                ctx.count("sibling_step_raised:" + type(e).__name__)
         for ob in circmon.drain():
             if ob["prop"] == "C11":
                 ctx.violation(ob["what"], case={"history": trace}, witness=ob["witness"],
